@@ -8,7 +8,8 @@ package model
 // (DESIGN.md Appendix A):
 //   - LPUSH with several elements: as if pushed one by one (Redis) or as a block
 //     in argument order (pinned by Test_HandleLPUSH "value1 value2 1 2 4 5");
-//   - LPUSHX/RPUSHX on an absent key: reply 0 or error, nothing created;
+//   - LPUSHX/RPUSHX on an absent key: reply 0 or error, nothing created; on a key that is stored as a list
+//     (also an emptied one) they add;
 //   - a list emptied by a command: key absent, or present with zero elements;
 //   - LMOVE reply: the moved element (Redis) or OK (pinned by Test_HandleLMOVE and
 //     the embedded API's boolean result); destination absent: created or error.
@@ -99,10 +100,9 @@ func mListPush(st *State, env Env, a []string, left, onlyIfExists bool) []Outcom
 		if e == nil {
 			return one(MAny(MInt(0), MErr()), st)
 		}
-		if len(e.L) == 0 {
-			// present-and-empty is a state Redis cannot reach: "the list exists" may be read either way
-			outs = append(outs, Outcome{Reply: MAny(MInt(0), MErr()), State: st, Note: "empty list counted as not existing"})
-		}
+		// A key that is in the keyspace as a list (even one emptied by pops or removals, which the server
+		// keeps: TYPE says list, LLEN says 0) is an existing list: the X variants add to it. A server that
+		// removes emptied lists has no such key, and the absent-key branch above applies.
 	}
 	var cur []string
 	if e != nil {
